@@ -9,7 +9,7 @@ VERIF="$(cd "$(dirname "$0")/.." && pwd)"
 DRV="$VERIF/driver/target/release/pdb-facts"
 [ -x "$DRV" ] || { echo "driver not built: run setup (cd $VERIF/driver && cargo build --offline --release)" >&2; exit 2; }
 SYSROOT="$(rustc +nightly --print sysroot)"
-TGT="${PDB_TARGET_DIR:-$VERIF/.cache/target-$CFG}"
+TGT="${PDB_TARGET_DIR:-${PDB_CACHE:-$VERIF/.cache}/target-$CFG}"
 mkdir -p "$OUT" "$TGT"
 # force cargo to re-run the wrapper for workspace members (dependencies stay cached)
 find "$TGT" -type d -path '*/.fingerprint/parity-db-*' -prune -exec rm -rf {} + 2>/dev/null || true
